@@ -446,6 +446,14 @@ impl Driver for C05 {
                             out.nontrivial(hash_str(&format!("{solver}|{}", serde_json::to_string(spec).unwrap())));
                         } else if tkind == "infeasible" && relaxed_kind(&lp, &tol) == Some("unbounded") {
                             out.inconclusive("verdict differs only within the 1e-6 tolerance band");
+                        } else if astronomical(spec) {
+                            // bounds like -6e307 (a bound propagation that diverged on an infeasible source): no float method
+                            // tells 'below -6e307' from 'unbounded below'
+                            out.violation(
+                                "wrong-verdict-on-astronomically-scaled-model(|number|>=1e100)",
+                                &format!("{solver} reports Unbounded but the model, which contains a number of magnitude >= 1e100, is {tkind}"),
+                                detail(json!("Unbounded")),
+                            );
                         } else {
                             out.violation(
                                 &format!("{solver}:Unbounded-on-{tkind}({pre})"),
